@@ -158,20 +158,32 @@ Definition opt_unop_is (a : option unop) (u : unop) : bool :=
    6  `)` `]` `,` and end of input never continue an expression;
    7  call / index / field tokens are valid postfix continuations, at a level above every binary
       operator and not below the unary operand level. *)
+Definition tab_pair_ok (T : ptab) (a b : binop) : bool :=
+  (if doc_rank a <? doc_rank b then (pt_prec T (bt a) <? pt_prec T (bt b))
+                                    && (pt_next T (pt_prec T (bt a)) <=? pt_prec T (bt b)) else true)
+  && (if doc_rank a =? doc_rank b then pt_prec T (bt a) =? pt_prec T (bt b) else true).
+
+Definition tab_op_ok (T : ptab) (a : binop) : bool :=
+  (pt_prec T (bt a) <? pt_next T (pt_prec T (bt a)))
+  && (if doc_below_unary a then pt_prec T (bt a) <? pt_unary_level T else true)
+  && pt_valid T (bt a) && opt_binop_eqb (pt_bin T (bt a)) a && negb (pt_postfix T (bt a))
+  && (pt_entry T <=? pt_prec T (bt a)).
+
+Definition tab_postfix_ok (T : ptab) (k : kw) : bool :=
+  pt_valid T (TK k) && pt_postfix T (TK k) && (pt_unary_level T <=? pt_prec T (TK k))
+  && forallb (fun a => pt_prec T (bt a) <? pt_prec T (TK k)) all_binops.
+
+Definition tab_pairs_ok (T : ptab) : bool :=
+  forallb (fun a => forallb (tab_pair_ok T a) all_binops) all_binops.
+Definition tab_ops_ok (T : ptab) : bool := forallb (tab_op_ok T) all_binops.
+Definition tab_postfixes_ok (T : ptab) : bool := forallb (tab_postfix_ok T) doc_postfix.
+
 Definition tab_okb (T : ptab) : bool :=
-  forallb (fun a => forallb (fun b =>
-      (if doc_rank a <? doc_rank b then (pt_prec T (bt a) <? pt_prec T (bt b))
-                                        && (pt_next T (pt_prec T (bt a)) <=? pt_prec T (bt b)) else true)
-      && (if doc_rank a =? doc_rank b then pt_prec T (bt a) =? pt_prec T (bt b) else true)) all_binops) all_binops
-  && forallb (fun a =>
-      (pt_prec T (bt a) <? pt_next T (pt_prec T (bt a)))
-      && (if doc_below_unary a then pt_prec T (bt a) <? pt_unary_level T else true)
-      && pt_valid T (bt a) && opt_binop_eqb (pt_bin T (bt a)) a && negb (pt_postfix T (bt a))
-      && (pt_entry T <=? pt_prec T (bt a))) all_binops
+  tab_pairs_ok T
+  && tab_ops_ok T
   && opt_unop_is (pt_unary T (TK (doc_untok Neg))) Neg && opt_unop_is (pt_unary T (TK (doc_untok Not))) Not
   && negb (pt_valid T (TK KRightParen)) && negb (pt_valid T (TK KRightBracket)) && negb (pt_valid T (TK KComma))
   && negb (pt_valid T TEOF)
-  && forallb (fun k => pt_valid T (TK k) && pt_postfix T (TK k) && (pt_unary_level T <=? pt_prec T (TK k))
-                       && forallb (fun a => pt_prec T (bt a) <? pt_prec T (TK k)) all_binops) doc_postfix.
+  && tab_postfixes_ok T.
 
 Definition prec_table_ok (r : raw) : bool := names_ok r && tab_okb (interp r).
